@@ -274,7 +274,7 @@ class QConv2D(Conv2D, PrunableLayer):
       kernel_size,
       strides=(1, 1),
       padding="valid",
-      data_format="channels_last",
+      data_format=None,
       dilation_rate=(1, 1),
       activation=None,
       use_bias=True,
